@@ -223,6 +223,8 @@ SPEC = [
          uses_dispatch=True, extra=[("permUb", "Nat → Num")], locals={"lb": L("bentry"), "ub": L("bentry")}),
     dict(name="task_transform_solution", src=("models.py", "Task.transform_solution"), params={"x": "coords"}, ret=("dict", "decoded"),
          selfr={"variables": ("variables", L("vd"))}, uses_dispatch=True, extra=[("name_of", "VarDecl → String")], locals={"solution": ("dict", "decoded")}),
+    dict(name="task_init", src=("models.py", "Task.__init__"), kwargs={"variables": L("vd"), "space_dimension": "int"}, params={}, ret=T(L("vd"), "int"),
+         ret_fields=["variables", "space_dimension"], uses_dispatch=True, after_init_ok=["self._EPS = np.finfo(float).eps"]),
     dict(name="task_get_variables", src=("models.py", "Task.get_variables"), params={}, ret=L("var"), selfr={"variables": ("variables", L("vd"))}, uses_dispatch=True),
     dict(name="task_correct_solution", src=("models.py", "Task.correct_solution"), params={"solution": "raws"}, ret="coords",
          selfr={"variables": ("variables", L("vd"))}, uses_dispatch=True),
@@ -888,11 +890,11 @@ class Fn:
                         self.err(n, f"reduce(operator.mul) over a {ty}")
                     self.need_eff(n)
                     return f"(← Py.reduceMul {atom(t)})", "int"
-                if name == "sum" and len(n.args) == 1 and not n.keywords:
-                    t, ty = self.E(n.args[0], env)
-                    if ty != L("int"):
-                        self.err(n, f"sum() of a {ty}")
-                    return f"({atom(t)}.sum)", "int"
+            if name == "sum" and len(n.args) == 1 and not n.keywords:
+                t, ty = self.E(n.args[0], env)
+                if ty != L("int"):
+                    self.err(n, f"sum() of a {ty}")
+                return f"({atom(t)}.sum)", "int"
             if name == "str" and len(n.args) == 1 and not n.keywords and self.spec.get("multitask"):
                 t, ty = self.E(n.args[0], env)
                 if ty == "mmode":
@@ -1374,6 +1376,8 @@ class Fn:
             self.cur_pad = pad
             if isinstance(s, ast.Expr) and isinstance(s.value, ast.Constant) and isinstance(s.value.value, str):
                 continue
+            if self.ended and ast.unparse(s) in self.spec.get("after_init_ok", []):
+                continue               # a private constant stored after the record has been built: not part of the returned fields
             if print_only(s):          # debug output: no effect on any value
                 continue
             if isinstance(s, ast.FunctionDef) and s.name in self.spec.get("nested", {}):
